@@ -119,6 +119,91 @@ func pinnedCases() []pinned {
 			&schema.Field{Name: "at", Number: 3, Kind: schema.KTimestamp, Card: schema.Singular, Oneof: "content"})
 		goCase("C13", "C13/oneof_disc_timestamp_variant.json", "both", "", s)
 	}
+	innerCase := func(prop, file, variant, check, unit string, s *schema.Schema, noAvoid ...string) {
+		out = append(out, pinned{File: file, Doc: &innerReplay{Property: prop, Kind: "inner", Variant: variant, Check: check, Unit: unit,
+			Cases: 300, Seed: 7, Schema: s, NoAvoid: noAvoid}})
+	}
+	// ---- runtime: fixed ----
+	{
+		s, req, _, m, _ := baseSchema("p0020")
+		m.Verb, m.Path = 3, "/things/{name}"
+		req.Fields = append(req.Fields, fld("display_name", 2, schema.KString, schema.Singular))
+		innerCase("C02", "C02/body_resets_url_fields.json", "server", "c02", "PinService.Do", s)
+	}
+	{
+		s, _, _, _, _ := baseSchema("p0021")
+		innerCase("C01", "C01/client_octet_stream.json", "both", "c01", "PinService.Do", s)
+	}
+	{
+		s, _, resp, _, _ := baseSchema("p0022")
+		resp.Fields = []*schema.Field{{Name: "items", Number: 1, Kind: schema.KString, Card: schema.Repeated, Ann: &schema.Ann{Unwrap: true}}}
+		innerCase("C05", "C05/unwrap_empty_null.json", "server", "c05", "PinService.Do", s)
+	}
+	// ---- runtime: open ----
+	{
+		s, _, resp, _, _ := baseSchema("p0023")
+		child := &schema.Message{Name: "Thing", Fields: []*schema.Field{{Name: "big", Number: 1, Kind: schema.KInt64, Card: schema.Singular, Ann: &schema.Ann{Int64Encoding: 2}}}}
+		s.Files[0].Messages = append(s.Files[0].Messages, child)
+		resp.Fields = append(resp.Fields, &schema.Field{Name: "thing", Number: 2, Kind: schema.KMessage, TypeRef: s.Pkg + ".Thing", Card: schema.Singular})
+		innerCase("C05", "C05/annotated_child_of_plain_parent.json", "server", "c05", "PinService.Do", s, "annotated_nested")
+	}
+	{
+		s, _, resp, _, _ := baseSchema("p0024")
+		s.Files[0].Enums = []*schema.Enum{{Name: "Status", Values: []*schema.EnumValue{{Name: "STATUS_UNSPECIFIED", Number: 0}, {Name: "STATUS_ACTIVE", Number: 1, Custom: "active"}}}}
+		resp.Fields = append(resp.Fields, &schema.Field{Name: "status", Number: 2, Kind: schema.KEnum, TypeRef: s.Pkg + ".Status", Card: schema.Singular})
+		innerCase("C05", "C05/enum_value_custom.json", "server", "c05", "PinService.Do", s, "enum_value_custom")
+	}
+	{
+		s, _, resp, _, _ := baseSchema("p0025")
+		s.Files[0].Enums = []*schema.Enum{{Name: "Status", Values: []*schema.EnumValue{{Name: "STATUS_UNSPECIFIED", Number: 0}, {Name: "STATUS_ACTIVE", Number: 1}}}}
+		resp.Fields = append(resp.Fields, &schema.Field{Name: "status", Number: 2, Kind: schema.KEnum, TypeRef: s.Pkg + ".Status", Card: schema.Singular, Ann: &schema.Ann{EnumEncoding: 2}})
+		innerCase("C05", "C05/enum_encoding_number.json", "server", "c05", "PinService.Do", s, "enum_number")
+	}
+	{
+		s, _, resp, _, _ := baseSchema("p0026")
+		resp.Fields = []*schema.Field{{Name: "items", Number: 1, Kind: schema.KInt64, Card: schema.Repeated, Ann: &schema.Ann{Unwrap: true}}}
+		innerCase("C05", "C05/unwrap_scalar_encoding_json.json", "server", "c05", "PinService.Do", s, "unwrap_scalar_json")
+	}
+	{
+		s, req, _, _, _ := baseSchema("p0027")
+		addr := &schema.Message{Name: "Address", Fields: []*schema.Field{fld("street", 1, schema.KString, schema.Singular)}}
+		s.Files[0].Messages = append(s.Files[0].Messages, addr)
+		req.Fields = append(req.Fields, &schema.Field{Name: "addr", Number: 2, Kind: schema.KMessage, TypeRef: s.Pkg + ".Address", Card: schema.Singular, Ann: &schema.Ann{Flatten: true}})
+		innerCase("C04", "C04/flatten_decode_drops_child.json", "both", "c04", "DoRequest", s, "flatten")
+	}
+	{
+		s, req, _, _, _ := baseSchema("p0028")
+		v := &schema.Message{Name: "Shipping", Fields: []*schema.Field{fld("zip_code", 1, schema.KString, schema.Singular), fld("weight", 2, schema.KInt64, schema.Singular)}}
+		s.Files[0].Messages = append(s.Files[0].Messages, v)
+		req.Oneofs = []*schema.Oneof{{Name: "content", Discriminator: "type", Flatten: true}}
+		req.Fields = append(req.Fields, &schema.Field{Name: "shipping", Number: 2, Kind: schema.KMessage, TypeRef: s.Pkg + ".Shipping", Card: schema.Singular, Oneof: "content"})
+		innerCase("C04", "C04/flattened_child_encoding_json.json", "both", "c04", "DoRequest", s, "child_encoding_json")
+	}
+	{
+		s, _, _, m, _ := baseSchema("p0029")
+		m.Path = ""
+		innerCase("C03", "C03/default_path_go_client_404.json", "both", "c01", "PinService.Do", s, "default_path_disagreement")
+	}
+	{
+		s, _, _, m, _ := baseSchema("p0030")
+		m.Verb, m.Path = 1, "/things/{name}"
+		innerCase("C01", "C01/path_dot_segments.json", "both", "c01", "PinService.Do", s, "path_dot_segments")
+		out[len(out)-1].Doc.(*innerReplay).Extra = map[string]string{"force_path_value": ".."}
+		s2, _, _, m2, _ := baseSchema("p0031")
+		m2.Verb, m2.Path = 1, "/things/{name}"
+		innerCase("C01", "C01/path_value_single_slash.json", "both", "c01", "PinService.Do", s2, "path_value_single_slash")
+		out[len(out)-1].Doc.(*innerReplay).Extra = map[string]string{"force_path_value": "/"}
+	}
+	{
+		s, req, _, _, _ := baseSchema("p0032")
+		req.Fields = append(req.Fields, &schema.Field{Name: "page", Number: 2, Kind: schema.KInt32, Card: schema.Singular, Ann: &schema.Ann{Query: &schema.Query{Name: "page", Required: true}}})
+		innerCase("C01", "C01/required_query_on_body_verb.json", "both", "c01", "PinService.Do", s, "required_query_on_body_verb")
+	}
+	{
+		s, _, _, _, svc := baseSchema("p0033")
+		svc.BasePath = "api"
+		innerCase("C03", "C03/base_path_no_leading_slash.json", "both", "c01", "PinService.Do", s, "base_path_no_leading_slash")
+	}
 	// ---- C20 open ----
 	{
 		s, _, resp, _, _ := baseSchema("p0013")
